@@ -216,7 +216,8 @@ type LValue struct {
 type Stmt interface{ stmt() }
 
 type (
-	VarDecl  struct{ Name string; T *Type; Init Expr }
+	VarDecl  struct{ Name string; T *Type; Init Expr; BadArticle bool } // BadArticle: fault injection (wrong grammatical gender)
+	Raw      struct{ Text string }                                    // verbatim source lines (fault injection, preludes)
 	Assign   struct{ Target LValue; X Expr; Alt bool } // Alt: "x ist <literal>" spelling is not used; Alt selects "Speichere das Ergebnis von"
 	Compound struct{ Op string; Target LValue; X Expr }  // erhoehe verringere vervielfache teile negiere
 	If       struct {
@@ -255,6 +256,7 @@ type Elif struct {
 }
 
 func (*VarDecl) stmt()  {}
+func (*Raw) stmt()      {}
 func (*Assign) stmt()   {}
 func (*Compound) stmt() {}
 func (*If) stmt()       {}
@@ -285,6 +287,7 @@ type Func struct {
 }
 
 type Program struct {
+	Prelude []Stmt // global statements printed before the functions (constants, globals used by functions)
 	Structs []*Struct
 	Funcs   []*Func
 	Main    []Stmt
